@@ -17,6 +17,7 @@ import (
 func init() {
 	register(&Scenario{Prop: "C01", Name: "fanout", Run: func(rc *RunCtx) { runFanout(rc, fanOpts{}) }})
 	register(&Scenario{Prop: "C01", Name: "fanout-cancel", Run: func(rc *RunCtx) { runFanout(rc, fanOpts{cancel: true}) }})
+	register(&Scenario{Prop: "C01", Name: "fanout-rendezvous", Run: runFanoutRendezvous})
 	register(&Scenario{Prop: "C02", Name: "status", Run: func(rc *RunCtx) { runFanout(rc, fanOpts{thresholds: true}) }})
 	register(&Scenario{Prop: "C02", Name: "status-cancel", Run: func(rc *RunCtx) { runFanout(rc, fanOpts{thresholds: true, cancel: true}) }})
 	register(&Scenario{Prop: "C03", Name: "terminate", Run: func(rc *RunCtx) { runFanout(rc, fanOpts{cancel: true, small: true}) }})
@@ -965,5 +966,87 @@ func checkStatus(rc *RunCtx, s *fanSend, pipes []*mPipe, chains [][]expStep, can
 		if !cancelled {
 			rc.Failf("C02.missing-entries", "", "Send#%d: only %d status entries for %d pipelines without cancellation", s.ID, entries, len(pipes))
 		}
+	}
+}
+
+// ---- C01: pipelines whose inner nodes wait for each other --------------------------------
+//
+// "Every pipeline registered for that event type is traversed" must hold for every
+// configuration in which the nodes return. Here the formatters of the k pipelines of one type
+// meet at a barrier: each returns once all k have been entered. Nothing in that is circular
+// for a dispatcher that runs the pipelines independently of each other (only a pipeline's
+// FIRST node is called from the dispatching loop, and the barrier is never a first node).
+
+type barrierNode struct {
+	kind    el.NodeType
+	arrived *int
+	need    int
+	calls   int
+	isLast  bool
+}
+
+func (n *barrierNode) Type() el.NodeType { return n.kind }
+func (n *barrierNode) Reopen() error     { return nil }
+func (n *barrierNode) Process(ctx context.Context, e *el.Event) (*el.Event, error) {
+	n.calls++
+	if n.kind == el.NodeTypeFormatter {
+		*n.arrived++
+		for i := 0; *n.arrived < n.need && i < 400; i++ {
+			simrt.Yield("barrier:wait")
+		}
+		if *n.arrived < n.need {
+			return nil, fmt.Errorf("barrier: only %d of %d pipelines arrived", *n.arrived, n.need)
+		}
+	}
+	if n.kind == el.NodeTypeSink {
+		return nil, nil
+	}
+	return e, nil
+}
+
+func runFanoutRendezvous(rc *RunCtx) {
+	tp := rc.Tape
+	sim := rc.Sim
+	b, _ := el.NewBroker()
+	k := 2 + tp.Choose(3, "npipes")
+	arrived := 0
+	var sinks, fmts []*barrierNode
+	for i := 0; i < k; i++ {
+		f := &barrierNode{kind: el.NodeTypeFilter}
+		m := &barrierNode{kind: el.NodeTypeFormatter, arrived: &arrived, need: k}
+		s := &barrierNode{kind: el.NodeTypeSink}
+		ids := []el.NodeID{el.NodeID(fmt.Sprintf("f%d", i)), el.NodeID(fmt.Sprintf("m%d", i)), el.NodeID(fmt.Sprintf("s%d", i))}
+		b.RegisterNode(ids[0], f)
+		b.RegisterNode(ids[1], m)
+		b.RegisterNode(ids[2], s)
+		if tp.Choose(3, "no-filter") == 0 {
+			ids = ids[1:] // the barrier formatter would be the pipeline's first node: not allowed to wait
+			m.need = 0
+		}
+		if err := b.RegisterPipeline(el.Pipeline{PipelineID: el.PipelineID(fmt.Sprintf("p%d", i)), EventType: "t", NodeIDs: ids}); err != nil {
+			rc.Failf("C01.setup", "", "%v", err)
+			return
+		}
+		sinks = append(sinks, s)
+		fmts = append(fmts, m)
+	}
+	// pipelines whose formatter is the first node do not wait; the others wait for all k arrivals
+	returned := false
+	var serr error
+	sim.Spawn("sender", func() {
+		_, serr = b.Send(context.Background(), "t", "payload")
+		returned = true
+	})
+	sim.Run(nil)
+	rc.NonTrivial = true
+	rc.Desc = map[string]interface{}{"pipelines": k}
+	reached := 0
+	for _, s := range sinks {
+		if s.calls == 1 {
+			reached++
+		}
+	}
+	if !returned || reached != k {
+		rc.Failf("C01.traversal", "pipelines-wait-for-each-other", "%d pipelines whose formatters wait for one another (none of them a first node): Send returned=%v (err %v), %d of %d sinks were reached: the pipelines were not traversed independently of each other; %s", k, returned, serr, reached, k, strings.Join(sim.StuckInfo, "; "))
 	}
 }
